@@ -88,12 +88,38 @@ def run(P: Program, R: Report, tier: str) -> None:
                             it = lp.iter
                             if isinstance(it, ast.Name):
                                 dd = [a_ for a_ in ast.walk(f.node) if isinstance(a_, ast.Assign) and norm(a_.targets[0]) == it.id]
-                                it = dd[0].value if len(dd) == 1 else it
+                                if len(dd) == 1:
+                                    it = dd[0].value
+                                else:
+                                    qc = P.resolve_name(f.module, it.id)
+                                    if qc in P.constants:
+                                        it = P.constants[qc]  # a module-level table of validators
                             if isinstance(it, (ast.Tuple, ast.List)):
                                 for row in it.elts:
                                     if isinstance(row, (ast.Tuple, ast.List)) and idx < len(row.elts):
                                         table.append(norm(row.elts[idx]))
                     table = [t for t in table if (P.resolve_name(f.module, t) or "").startswith("ext:geff.validate")]
+                if not q and not table and isinstance(s.value.func, ast.Name) and cn in f.params:
+                    # the validator is a parameter of this helper: collect what the callers pass (directly or through a table)
+                    pidx = f.params.index(cn)
+                    for g_ in P.functions.values():
+                        if g_.module is not f.module:
+                            continue
+                        for c_ in ast.walk(g_.node):
+                            if isinstance(c_, ast.Call) and isinstance(c_.func, ast.Name) and c_.func.id == f.name and pidx < len(c_.args):
+                                a_ = c_.args[pidx]
+                                cand = [norm(a_)]
+                                lps = [lp for lp in ast.walk(g_.node) if isinstance(lp, ast.For) and any(x is c_ for x in ast.walk(lp))]
+                                if isinstance(a_, ast.Name) and lps and isinstance(lps[-1].target, ast.Tuple):
+                                    names_ = [norm(x) for x in lps[-1].target.elts]
+                                    if a_.id in names_:
+                                        it_ = lps[-1].iter
+                                        if isinstance(it_, ast.Name):
+                                            qc = P.resolve_name(g_.module, it_.id)
+                                            it_ = P.constants.get(qc, it_)
+                                        if isinstance(it_, (ast.Tuple, ast.List)):
+                                            cand = [norm(r_.elts[names_.index(a_.id)]) for r_ in it_.elts if isinstance(r_, (ast.Tuple, ast.List))]
+                                table += [t for t in cand if (P.resolve_name(f.module, t) or "").startswith("ext:geff.validate")]
                 if table:
                     cn = "/".join(table)
                     n += len(table) - 1
@@ -103,13 +129,20 @@ def run(P: Program, R: Report, tier: str) -> None:
                 okv = norm(s.targets[0].elts[0])
                 nxt = body[i + 1] if i + 1 < len(body) else None
                 tested = isinstance(nxt, ast.If) and norm(nxt.test) == f"not {okv}"
+                fail_body = nxt.body if tested else None
+                if not tested and isinstance(nxt, ast.If) and norm(nxt.test) == okv and len(nxt.body) == 1 and isinstance(nxt.body[0], (ast.Return, ast.Continue)) and not nxt.orelse:
+                    # `if ok: return`  - the failing case is what follows
+                    tested, fail_body = True, body[i + 2:]
+                elif not tested and isinstance(nxt, ast.If) and norm(nxt.test) == okv and nxt.orelse:
+                    tested, fail_body = True, nxt.orelse
                 label = f"{f.short}: verdict of {cn} is tested right after the call"
                 if not tested:
                     R.fail("R12.2", f, s, label, f"the `{okv}` returned by {cn} is never tested: the malformed source is imported")
                     continue
-                raises = any(isinstance(x, ast.Raise) and "ValueError" in norm(x) for x in nxt.body)
-                drops = any(isinstance(x, ast.Delete) for x in nxt.body) and any(isinstance(x, ast.Expr) and isinstance(x.value, ast.Call) and call_name(x.value) == "warn" for x in nxt.body)
-                optional = cn in ("validate_tracklets", "validate_lineages") and not table
+                fb = ast.Module(fail_body, [])
+                raises = any(isinstance(x, ast.Raise) and "ValueError" in norm(x) for x in ast.walk(fb))
+                drops = any(isinstance(x, ast.Delete) for x in ast.walk(fb)) and any(isinstance(x, ast.Call) and call_name(x) == "warn" for x in ast.walk(fb))
+                optional = all(t_ in ("validate_tracklets", "validate_lineages") for t_ in (table or [cn]))
                 good = drops if optional else raises
                 R.check(good, "R12.2", f, nxt, f"{f.short}: a failing {cn} " + ("drops the optional property with a warning" if optional else "raises ValueError"),
                         "the failing branch neither raises ValueError nor removes the property", via="error-discipline")
@@ -130,40 +163,64 @@ def run(P: Program, R: Report, tier: str) -> None:
                 "the uniqueness check dominates the renumbering of non-integer ids",
                 "ids are renumbered before duplicates are rejected: duplicate ids can become distinct integers and slip through", via="cfg-dominance")
     ei = P.func_named("_ensure_integer_ids")
-    maps = [c for c in ast.walk(ei.node) if isinstance(c, ast.Call) and call_name(c) == "map" and c.args]
-    cols = {}
-    for c in maps:
-        cols[norm(c.func.value)] = norm(c.args[0])
-    idc = [k for k in cols if "'id'" in k]
-    pc = [k for k in cols if "parent_id" in k]
-    R.check(bool(idc) and bool(pc) and cols[idc[0]] == cols[pc[0]], "R12.4", ei, ei.node, "id and parent_id are renumbered through the same mapping object",
-            f"mappings used: {cols}", via="dataflow")
-    mp = cols[idc[0]] if idc else None
-    if mp:
-        d = [s for s in ast.walk(ei.node) if isinstance(s, ast.Assign) and norm(s.targets[0]) == mp]
-        one2one = bool(d) and "enumerate(" in norm(d[0].value) and ("unique()" in norm(ei.node))
-        R.check(one2one, "R12.4", ei, d[0] if d else ei.node, "the mapping numbers the distinct source ids (one new id per distinct value)",
-                norm(d[0].value)[:100] if d else "", via="syntax")
-    # R12.5
+    from ..resolve import Resolver as _Rs
+
+    def maps_in(fn, bind, depth=0):
+        """(.map call, column text, mapping text, holder) in fn and in the module helpers it hands columns / mappings to"""
+        out = []
+        rs = _Rs(P, fn)
+
+        def txt(e):
+            t = rs.text(e)
+            for k, v in bind.items():
+                t = t.replace(k, v) if t == k else t
+            return bind.get(norm(e), t)
+
+        for c in ast.walk(fn.node):
+            if isinstance(c, ast.Call) and call_name(c) == "map" and c.args and isinstance(c.func, ast.Attribute):
+                out.append((c, txt(c.func.value), txt(c.args[0]), fn))
+            if depth < 2 and isinstance(c, ast.Call) and isinstance(c.func, ast.Name):
+                h = P.functions.get(P.resolve_name(fn.module, c.func.id) or "")
+                if h is not None and h is not fn and ".import_export." in h.qname:
+                    b2 = {p_: txt(a_) for p_, a_ in zip(h.params, c.args, strict=False)}
+                    b2.update({k.arg: txt(k.value) for k in c.keywords if k.arg})
+                    out += maps_in(h, b2, depth + 1)
+        return out
+
+    maps = maps_in(ei, {})
+    idm = [m_ for m_ in maps if "parent_id" not in m_[1] and "id" in m_[1]]
+    pm = [m_ for m_ in maps if "parent_id" in m_[1]]
+    if not idm or not pm:
+        R.undecided("R12.4", ei, ei.node, "id and parent_id are renumbered through the same mapping object", f"column maps not recognised: {[(m_[1], m_[2]) for m_ in maps]}")
+    else:
+        R.check(idm[0][2] == pm[0][2], "R12.4", ei, ei.node, "id and parent_id are renumbered through the same mapping object",
+                f"id column mapped through `{idm[0][2][:60]}`, parent column through `{pm[0][2][:60]}`", via="dataflow")
+        mtxt = idm[0][2]
+        one2one = ("unique()" in mtxt or "unique()" in norm(ei.node)) and ("enumerate(" in mtxt or ("zip(" in mtxt and "range(" in mtxt))
+        if one2one:
+            R.ok("R12.4", ei, idm[0][0], "the mapping numbers the distinct source ids (one new id per distinct value)", mtxt[:100], via="syntax")
+        else:
+            R.undecided("R12.4", ei, idm[0][0], "the mapping numbers the distinct source ids (one new id per distinct value)", f"mapping `{mtxt[:80]}` not recognised")
+    # R12.5: in the function that maps the parent column, a ValueError is raised under a test derived from the mapped result
     guarded = False
-    for r in [x for x in ast.walk(ei.node) if isinstance(x, ast.Raise) and "ValueError" in norm(x)]:
-        ifs = [i for i in ast.walk(ei.node) if isinstance(i, ast.If) and r in i.body]
-        for i in ifs:
-            names = {x.id for x in ast.walk(i.test) if isinstance(x, ast.Name)}
-            # does the tested value derive from the mapped parent column?
-            frontier, seen = set(names), set()
-            while frontier:
-                v = frontier.pop()
-                seen.add(v)
-                for s in ast.walk(ei.node):
-                    if isinstance(s, ast.Assign) and any(isinstance(t, ast.Name) and t.id == v for t in s.targets):
-                        txt = norm(s.value)
-                        if "parent_id" in txt and ".map(" in txt:
-                            guarded = True
-                        frontier |= {x.id for x in ast.walk(s.value) if isinstance(x, ast.Name)} - seen
-            if "parent_id" in norm(i.test) and ".map(" in norm(i.test):
-                guarded = True
-    R.check(guarded, "R12.5", ei, pc and next(c for c in maps if "parent_id" in norm(c.func.value)) or ei.node,
+    for c_, col, mp_, holder in pm:
+        mapped_names = {t.id for s_ in ast.walk(holder.node) if isinstance(s_, ast.Assign) and any(x is c_ for x in ast.walk(s_.value)) for t in s_.targets if isinstance(t, ast.Name)}
+        for r in [x for x in ast.walk(holder.node) if isinstance(x, ast.Raise) and "ValueError" in norm(x)]:
+            for i in [i for i in ast.walk(holder.node) if isinstance(i, ast.If) and r in i.body]:
+                frontier, seen = {x.id for x in ast.walk(i.test) if isinstance(x, ast.Name)}, set()
+                while frontier:
+                    v = frontier.pop()
+                    seen.add(v)
+                    if v in mapped_names:
+                        guarded = True
+                    for s_ in ast.walk(holder.node):
+                        if isinstance(s_, ast.Assign) and any(isinstance(t, ast.Name) and t.id == v for t in s_.targets):
+                            if any(x is c_ for x in ast.walk(s_.value)):
+                                guarded = True
+                            frontier |= {x.id for x in ast.walk(s_.value) if isinstance(x, ast.Name)} - seen
+                if any(x is c_ for x in ast.walk(i.test)):
+                    guarded = True
+    R.check(guarded, "R12.5", ei, pm[0][0] if pm else ei.node,
             "_ensure_integer_ids rejects parents that are not ids (mapping a column through a dict turns unknown values into 'no parent')",
             "`parent_id.map(id_mapping)` turns a parent that matches no id into NaN, which is the 'root' encoding: the link is silently dropped "
             "instead of the source being rejected", via="lossy-normalisation")
@@ -231,7 +288,7 @@ def source_id_truthiness(P: Program, R: Report, rule: str) -> None:
                             bad = x
                 R.check(bad is None, rule, fn, bad or site, f"{fn.short}: ids read from the source ({', '.join(sorted(ids))}) are never tested by truthiness",
                         f"`{norm(bad) if bad is not None else ''}` is used as a condition: id 0 counts as 'no id', so links from / to node 0 are dropped on import")
-    R.floor(rule, "loops over source id columns in the import/export package", n, 2)
+    R.floor(rule, "loops over source id columns in the import/export package", n, 1)
 
 
 def validators_unavoidable(P: Program, R: Report, rule: str) -> None:
